@@ -575,6 +575,86 @@ func mergePaging(w *load.World, c *core.Collector, props []string) {
 	} else {
 		c.Add("MERGE", "paging", core.OK, w.At(page), "", props...)
 	}
+	// every successful return of a non-empty result list in that function hands back the page: the
+	// uncut list can only take a way on which nothing but the offset and the limit were tested
+	var offLim []ssax.Edge
+	for _, b := range f.Blocks {
+		ifi, ok := b.Instrs[len(b.Instrs)-1].(*ssa.If)
+		if !ok {
+			continue
+		}
+		bo, _, ok := condBinOp(ifi.Cond, 0)
+		if !ok {
+			continue
+		}
+		only := func(v ssa.Value) bool {
+			if _, isC := v.(*ssa.Const); isC {
+				return true
+			}
+			o := ssax.Prov(v)
+			if len(o) == 0 {
+				return false
+			}
+			for k := range o {
+				if k != "field:Offset" && k != "field:Limit" && k != "const" && !strings.HasPrefix(k, "param:") {
+					return false
+				}
+			}
+			return deepHas(w, v, "field:Offset") || deepHas(w, v, "field:Limit") || o["const"]
+		}
+		if only(bo.X) && only(bo.Y) {
+			offLim = append(offLim, ssax.Edge{From: b, Succ: 0}, ssax.Edge{From: b, Succ: 1})
+		}
+	}
+	bad := ""
+	nRet := 0
+	for _, ex := range successExits(f) {
+		r, ok := ex.In.(*ssa.Return)
+		if !ok || len(r.Results) == 0 || !isSearchResultSlice(r.Results[0].Type()) {
+			continue
+		}
+		nRet++
+		seen := map[*ssa.Phi]bool{}
+		var walk func(v ssa.Value, pred, succ *ssa.BasicBlock)
+		walk = func(v ssa.Value, pred, succ *ssa.BasicBlock) {
+			switch x := v.(type) {
+			case *ssa.Slice:
+				if x == page {
+					return
+				}
+				if _, isAlloc := x.X.(*ssa.Alloc); isAlloc {
+					return // an array literal turned into a slice
+				}
+			case *ssa.Const:
+				return
+			case *ssa.Phi:
+				if seen[x] {
+					return
+				}
+				seen[x] = true
+				for i, e := range x.Edges {
+					walk(e, x.Block().Preds[i], x.Block())
+				}
+				return
+			case *ssa.MakeSlice:
+				if ln, isC := ssax.ConstInt(x.Len); isC && ln == 0 {
+					return
+				}
+			}
+			if pred != nil && edgeOnlyVia(offLim, pred, succ) {
+				return
+			}
+			bad = w.At(r)
+		}
+		walk(ssax.ReturnOperand(r, 0), nil, nil)
+	}
+	if nRet > 0 {
+		if bad != "" {
+			c.Add("MERGE", "paging-on-every-return", core.Violation, bad, "a list of results can be returned here that did not go through the cut to [offset, offset+limit) (on a way that tests more than the offset and the limit): a client pages through results that overlap or skip", props...)
+		} else {
+			c.Add("MERGE", "paging-on-every-return", core.OK, w.At(page), "", props...)
+		}
+	}
 }
 
 func mergeSortKeys(w *load.World, c *core.Collector, props []string) {
